@@ -590,7 +590,9 @@ class VM:
         elif op == OpCode.SUB:
             b = self.stack.pop()
             a = self.stack.pop()
-            self.stack.append(js_number(to_number(a) - to_number(b)))
+            a_num = self._to_number(a)
+            b_num = self._to_number(b)
+            self.stack.append(js_number(a_num - b_num))
 
         elif op == OpCode.MUL:
             b = self.stack.pop()
@@ -602,8 +604,10 @@ class VM:
         elif op == OpCode.DIV:
             b = self.stack.pop()
             a = self.stack.pop()
-            b_num = to_number(b)
-            a_num = to_number(a)
+            # Objects are converted through valueOf/toString, the left operand
+            # first
+            a_num = self._to_number(a)
+            b_num = self._to_number(b)
             if b_num == 0:
                 # Check sign of zero using copysign
                 b_sign = math.copysign(1, b_num)
@@ -620,8 +624,10 @@ class VM:
         elif op == OpCode.MOD:
             b = self.stack.pop()
             a = self.stack.pop()
-            b_num = to_number(b)
-            a_num = to_number(a)
+            # Objects are converted through valueOf/toString, the left operand
+            # first
+            a_num = self._to_number(a)
+            b_num = self._to_number(b)
             if (
                 b_num == 0
                 or math.isnan(a_num)
@@ -644,11 +650,13 @@ class VM:
         elif op == OpCode.POW:
             b = self.stack.pop()
             a = self.stack.pop()
-            self.stack.append(js_pow(to_number(a), to_number(b)))
+            a_num = self._to_number(a)
+            b_num = self._to_number(b)
+            self.stack.append(js_pow(a_num, b_num))
 
         elif op == OpCode.NEG:
             a = self.stack.pop()
-            n = to_number(a)
+            n = self._to_number(a)
             # Ensure -0 produces -0.0 (float)
             if n == 0:
                 self.stack.append(-0.0 if math.copysign(1, n) > 0 else 0.0)
@@ -657,7 +665,7 @@ class VM:
 
         elif op == OpCode.POS:
             a = self.stack.pop()
-            self.stack.append(to_number(a))
+            self.stack.append(self._to_number(a))
 
         # Bitwise
         elif op == OpCode.BAND:
